@@ -522,6 +522,73 @@ func (o *httpObs) c03multi(ids []string) {
 	}
 }
 
+// c02ld: the same feed rendered as JSON-LD (Accept: application/ld+json): the sequence of entity ids, per limit and
+// with latestOnly, tokens followed.
+func (o *httpObs) c02ld() {
+	h := o.h
+	for _, md := range h.M.LiveInOrder() {
+		name := url.PathEscape(h.DsName(md.Name))
+		for _, lo := range []bool{false, true} {
+			feed := md.Feed
+			if lo {
+				feed = md.LatestOnlyFeed()
+			}
+			var want []string
+			for _, v := range feed {
+				want = append(want, v.ID)
+			}
+			for _, limit := range []int{0, 2} {
+				o.n++
+				var got []string
+				since := ""
+				bad := false
+				for pages := 0; pages < len(md.Feed)+10; pages++ {
+					q := fmt.Sprintf("/datasets/%s/changes?latestOnly=%v", name, lo)
+					if limit > 0 {
+						q += fmt.Sprintf("&limit=%d", limit)
+					}
+					if since != "" {
+						q += "&since=" + url.QueryEscape(since)
+					}
+					code, body, pn := o.w.requestAccept(http.MethodGet, q, "", "application/ld+json")
+					if pn != "" || code != 200 {
+						o.fail("C02:http-ld:error:"+md.Name, fmt.Sprintf("GET %s as JSON-LD: status %d %s", q, code, pn))
+						bad = true
+						break
+					}
+					var arr []map[string]interface{}
+					if err := json.Unmarshal(body, &arr); err != nil {
+						o.fail("C02:http-ld:unparsable:"+md.Name, fmt.Sprintf("GET %s as JSON-LD is not a JSON array of objects: %v", q, err))
+						bad = true
+						break
+					}
+					n, tok := 0, ""
+					for _, el := range arr {
+						if t, ok := el["core:token"].(string); ok {
+							tok = t
+							continue
+						}
+						if id, ok := el["@id"].(string); ok {
+							got = append(got, h.AbsID(id))
+							n++
+						}
+					}
+					if n == 0 || tok == "" || tok == since {
+						break
+					}
+					since = tok
+				}
+				if bad {
+					continue
+				}
+				if strings.Join(got, " ") != strings.Join(want, " ") {
+					o.fail(fmt.Sprintf("C02:http-ld:feed:%s:lo=%v:limit=%d", md.Name, lo, limit), fmt.Sprintf("GET changes of %s as JSON-LD (latestOnly=%v, limit %d, following tokens) lists %v; the feed is %v", md.Name, lo, limit, got, want))
+				}
+			}
+		}
+	}
+}
+
 // c02rev: GET changes?reverse=true with every limit, tokens followed: the feed backwards, nothing skipped or repeated.
 func (o *httpObs) c02rev() {
 	h := o.h
@@ -787,6 +854,7 @@ func httpStoreReplay(task engine.SeqTask) (res engine.SeqResult) {
 			o.c01(p.IDs)
 		case "c02":
 			o.c02()
+			o.c02ld()
 			o.c02rev()
 			o.c02js()
 		case "c03":
